@@ -944,12 +944,14 @@ async fn block_listener() -> Result<tokio::net::TcpListener, String> {
             Err(e) => last = format!("127.0.0.1:{}: {}", p, e),
         }
     }
-    Err(last)
+    // the whole block is busy: wait for any port (retries for ~100 s on a shortage of ports)
+    bind_retry(SocketAddr::new(IpAddr::V4(Ipv4Addr::LOCALHOST), 0)).await.map_err(|e| format!("{}; {}", last, e))
 }
 
-/// close with RST instead of FIN: no TIME-WAIT socket is left behind by the harness
-fn no_time_wait(s: &TcpStream) {
-    let _ = socket2::SockRef::from(s).set_linger(Some(Duration::ZERO));
+use crate::verif_hooks::{bind_retry, connect_retry, no_time_wait};
+
+fn port_shortage(e: &std::io::Error) -> bool {
+    matches!(e.kind(), std::io::ErrorKind::AddrInUse | std::io::ErrorKind::AddrNotAvailable)
 }
 
 #[derive(Default)]
@@ -981,6 +983,7 @@ struct Session {
     wr: Option<tokio::net::tcp::OwnedWriteHalf>,
     codec: PeerCodec,
     rx: Arc<Mutex<SpkRx>>,
+    reader: Option<tokio::task::JoinHandle<()>>,
     my_open: Open,
     daemon_open: Open,
     my_port: u16,
@@ -1032,12 +1035,20 @@ async fn spk_connect(cfg: &SpkCfg, idx: usize, bgp_port: u16, step: usize) -> Re
     let mut last = String::new();
     for _ in 0..300 {
         let sock = if cfg.addr.is_ipv6() { tokio::net::TcpSocket::new_v6() } else { tokio::net::TcpSocket::new_v4() }.map_err(|e| e.to_string())?;
-        sock.bind(SocketAddr::new(cfg.addr, 0)).map_err(|e| format!("bind {}: {}", cfg.addr, e))?;
+        if let Err(e) = sock.bind(SocketAddr::new(cfg.addr, 0)) {
+            last = format!("bind {}: {}", cfg.addr, e);
+            if port_shortage(&e) {
+                tokio::time::sleep(Duration::from_millis(500)).await;
+                continue;
+            }
+            return Err(last);
+        }
         let mut stream = match sock.connect(dst).await {
             Ok(s) => s,
             Err(e) => {
                 last = format!("connect: {}", e);
-                tokio::time::sleep(Duration::from_millis(10)).await;
+                // a temporary shortage of ports is waited out; anything else is retried quickly
+                tokio::time::sleep(Duration::from_millis(if port_shortage(&e) { 500 } else { 10 })).await;
                 continue;
             }
         };
@@ -1118,7 +1129,7 @@ async fn spk_connect(cfg: &SpkCfg, idx: usize, bgp_port: u16, step: usize) -> Re
         let (mut rd, wr) = stream.into_split();
         let rx = Arc::new(Mutex::new(SpkRx::default()));
         let rx2 = rx.clone();
-        tokio::spawn(async move {
+        let reader = tokio::spawn(async move {
             let mut buf = buf;
             let mut tmp = vec![0u8; 65536];
             loop {
@@ -1139,7 +1150,7 @@ async fn spk_connect(cfg: &SpkCfg, idx: usize, bgp_port: u16, step: usize) -> Re
                 }
             }
         });
-        return Ok(Session { spk: idx, wr: Some(wr), codec, rx, my_open, daemon_open, my_port, daemon_port, daemon_ip, ap_in, model: BTreeMap::new(), live: Vec::new(), up_step: step, down_step: None, close: None });
+        return Ok(Session { spk: idx, wr: Some(wr), codec, rx, reader: Some(reader), my_open, daemon_open, my_port, daemon_port, daemon_ip, ap_in, model: BTreeMap::new(), live: Vec::new(), up_step: step, down_step: None, close: None });
     }
     Err(last)
 }
@@ -1344,6 +1355,9 @@ async fn e2e_script(rng: &mut Rng, ps: &mut Parsers, prm: &E2eParams, k: u64) ->
         return out;
     };
 
+    // reader tasks own the harness ends of the station sockets: aborted first at the end so that these
+    // ends are closed (RST) before the daemon's
+    let mut station_tasks: Vec<tokio::task::JoinHandle<()>> = Vec::new();
     let mut up: Vec<Option<usize>> = vec![None; cfgs.len()]; // speaker -> index into out.sessions
     let mut step = 0usize;
     let mut marker = 0u32;
@@ -1366,7 +1380,7 @@ async fn e2e_script(rng: &mut Rng, ps: &mut Parsers, prm: &E2eParams, k: u64) ->
                                 no_time_wait(&s);
                                 let buf = Arc::new(Mutex::new((Vec::new(), false)));
                                 let b2 = buf.clone();
-                                tokio::spawn(async move {
+                                station_tasks.push(tokio::spawn(async move {
                                     let mut tmp = vec![0u8; 1 << 16];
                                     loop {
                                         match s.read(&mut tmp).await {
@@ -1377,7 +1391,7 @@ async fn e2e_script(rng: &mut Rng, ps: &mut Parsers, prm: &E2eParams, k: u64) ->
                                             Ok(n) => b2.lock().unwrap().0.extend_from_slice(&tmp[..n]),
                                         }
                                     }
-                                });
+                                }));
                                 out.steps.push(format!("{}: station {} policy={} quiescent={}", step, out.stations.len(), policy_name(policy), $quiescent));
                                 out.stations.push(Station { policy, port, buf, off: 0, msgs: Vec::new(), broken: None, seen: BTreeSet::new(), quiescent: $quiescent, connect_step: step, at_connect });
                             }
@@ -1488,16 +1502,36 @@ async fn e2e_script(rng: &mut Rng, ps: &mut Parsers, prm: &E2eParams, k: u64) ->
                             }
                         }
                     }
-                    let _ = w.shutdown().await;
-                    drop(w);
-                }
-                // wait until the daemon closed its side too (its session task has ended)
-                let t0 = Instant::now();
-                while t0.elapsed() < Duration::from_secs(3) {
-                    if s.rx.lock().unwrap().eof {
-                        break;
+                    match kind {
+                        CloseKind::Drop => {
+                            if rng.chance(1, 5) {
+                                // orderly FIN (leaves this end in TIME_WAIT, hence the minority case)
+                                let _ = w.shutdown().await;
+                                let t0 = Instant::now();
+                                while t0.elapsed() < Duration::from_secs(3) && !s.rx.lock().unwrap().eof {
+                                    tokio::time::sleep(Duration::from_millis(2)).await;
+                                }
+                                drop(w);
+                            } else {
+                                // closed at once: SO_LINGER 0 => RST, as after a crash of the peer.  (Dropping an
+                                // OwnedWriteHalf would send a FIN first; forget() leaves the closing to the read half.)
+                                w.forget();
+                                if let Some(t) = s.reader.take() {
+                                    t.abort();
+                                    let _ = t.await;
+                                }
+                            }
+                        }
+                        _ => {
+                            // the daemon closes after the NOTIFICATION; this end then closes with RST
+                            let t0 = Instant::now();
+                            while t0.elapsed() < Duration::from_secs(3) && !s.rx.lock().unwrap().eof {
+                                tokio::time::sleep(Duration::from_millis(2)).await;
+                            }
+                            // no FIN from this end: the reader task has ended at EOF and dropped the read half
+                            w.forget();
+                        }
                     }
-                    tokio::time::sleep(Duration::from_millis(2)).await;
                 }
                 let received = s.rx.lock().unwrap().notif.clone();
                 s.close = Some(CloseRec { kind, sent, received });
@@ -1662,6 +1696,20 @@ async fn e2e_script(rng: &mut Rng, ps: &mut Parsers, prm: &E2eParams, k: u64) ->
     for st in out.stations.iter_mut() {
         st.advance(ps);
     }
+    // close the harness ends first (SO_LINGER 0 => RST): the daemon's ends are reset, nothing stays in TIME_WAIT
+    for s in out.sessions.iter_mut() {
+        if let Some(w) = s.wr.take() {
+            w.forget();
+        }
+        if let Some(t) = s.reader.take() {
+            t.abort();
+        }
+    }
+    for t in station_tasks {
+        t.abort();
+    }
+    drop(client);
+    tokio::time::sleep(Duration::from_millis(5)).await;
     out
 }
 
@@ -2262,8 +2310,11 @@ type DirectCase = (Vec<String>, Vec<String>, Vec<String>);
 async fn c18_direct_batch(rng: &mut Rng, ps: &mut Parsers, ncases: usize) -> Result<Vec<DirectCase>, String> {
     let l = block_listener().await?;
     let port = l.local_addr().map_err(|e| e.to_string())?.port();
-    let (c, a) = tokio::join!(TcpStream::connect(("127.0.0.1", port)), l.accept());
+    let (c, a) = tokio::join!(connect_retry(SocketAddr::new(IpAddr::V4(Ipv4Addr::LOCALHOST), port)), l.accept());
     let stream = c.map_err(|e| format!("connect: {}", e))?;
+    // the writing end closes with FIN after the last message (an RST could overtake data still in
+    // flight); the reading end closes with RST once it has seen the end of the stream
+    let _ = stream.set_linger(None);
     let (mut station, _) = a.map_err(|e| format!("accept: {}", e))?;
     no_time_wait(&station);
     // the station reads while the cases are written
@@ -2317,6 +2368,9 @@ async fn c18_direct_batch(rng: &mut Rng, ps: &mut Parsers, ncases: usize) -> Res
         }
         cases.push((events, expect));
     }
+    if lines.send(&bmp::Message::Initiation(vec![(0, b"end".to_vec())])).await.is_err() {
+        return Err("end marker could not be sent".into());
+    }
     drop(lines);
     let bytes = reader.await.map_err(|e| e.to_string())?;
     let recs = read_bmp(&bytes).map_err(|(c, d)| format!("stream not well-formed: {} {}", c, d))?;
@@ -2330,9 +2384,11 @@ async fn c18_direct_batch(rng: &mut Rng, ps: &mut Parsers, ncases: usize) -> Res
             Err((k, c, d)) => return Err(format!("message not well-formed: {} {} {}", k, c, d)),
         }
     }
-    if got.len() != cases.len() {
-        return Err(format!("{} delimiters read for {} cases", got.len(), cases.len()));
+    // the end marker proves that nothing was lost at the end of the stream
+    if got.len() != cases.len() + 1 || !got.last().is_some_and(|g| g.is_empty()) {
+        return Err(format!("{} delimiters read for {} cases + end marker", got.len(), cases.len()));
     }
+    got.pop();
     Ok(cases.into_iter().zip(got).map(|((e, x), g)| (e, x, g)).collect())
 }
 
